@@ -5,6 +5,7 @@
 -/
 import PM.Diff
 import Proofs.Diff
+import Proofs.DiffSym
 namespace PM.C20
 open PM
 
@@ -78,5 +79,106 @@ example :
     diffEnd [Node.elem 1 [] [] [Node.text [120, 55357, 56832, 97] []]]
             [Node.elem 1 [] [] [Node.text [121, 55357, 56832, 97] []]] 6 6 = some (2, 2) := by
   simp [diffEnd, diffStart, Node.sameMarkup, lcpLen]
+
+/-! ### arbitrary start positions, symmetry -/
+
+/-- **last difference from arbitrary end positions**: `find_diff_end(a, b, posA, posB)` steps both
+    positions back by the same amount `k`, the length of the longest common suffix of the marked-up
+    token sequences; `k` never exceeds either fragment, so with `posA`, `posB` at or past the
+    fragment sizes (every call in the library: they are the end positions of the two fragments in
+    their documents) nothing is truncated.  (The model subtracts in `Nat`; Python would go negative
+    for `posA < k`, which needs `posA` smaller than the size of `a`.)
+    `diffStart_lcp` above already holds for an arbitrary start position `pos`. -/
+theorem diffEnd_lcs_general (a b : List Node) (pa pb qa qb : Nat) (ha : fnorm a = true)
+    (hb : fnorm b = true) (h : diffEnd a b pa pb = some (qa, qb)) :
+    let k := lcpLen (fmtoks a).reverse (fmtoks b).reverse
+    qa = pa - k ∧ qb = pb - k ∧ k ≤ fsize a ∧ k ≤ fsize b ∧
+    (fsize a ≤ pa → qa + k = pa) ∧ (fsize b ≤ pb → qb + k = pb) := by
+  intro k
+  unfold diffEnd at h
+  rw [Option.map_eq_some_iff] at h
+  obtain ⟨k', hk, hq⟩ := h
+  have hlcp := diffStart_lcp_gen _ _ 0 k' [] [] (by rw [fnorm_fmirror]; exact ha)
+    (by rw [fnorm_fmirror]; exact hb) rfl rfl hk
+  simp only [List.append_nil, Nat.zero_add] at hlcp
+  rw [lcpLen_fmirror] at hlcp
+  have hle := diffStart_le' _ _ 0 k' hk
+  rw [fmirror_size, fmirror_size] at hle
+  simp only [Prod.mk.injEq] at hq
+  have hkk : k' = k := hlcp
+  subst hkk
+  refine ⟨hq.1.symm, hq.2.symm, by omega, by omega, fun _ => by omega, fun _ => by omega⟩
+
+/-- the result of `find_diff_end` from other end positions is the default result shifted -/
+theorem diffEnd_shift (a b : List Node) (pa pb : Nat) (hpa : fsize a ≤ pa) (hpb : fsize b ≤ pb) :
+    diffEnd a b pa pb =
+      (diffEnd a b (fsize a) (fsize b)).map
+        (fun q => (q.1 + (pa - fsize a), q.2 + (pb - fsize b))) := by
+  unfold diffEnd
+  cases hk : diffStart (fmirror a) (fmirror b) 0 with
+  | none => rfl
+  | some k =>
+    have hle := diffStart_le' _ _ 0 k hk
+    rw [fmirror_size, fmirror_size] at hle
+    simp only [Option.map_some, Option.some.injEq, Prod.mk.injEq]
+    omega
+
+/-- likewise `find_diff_start` from another start position -/
+theorem diffStart_shift (a b : List Node) (pos : Nat) :
+    diffStart a b pos = (diffStart a b 0).map (· + pos) := by
+  have key : ∀ (a b : List Node) (pos d : Nat),
+      diffStart a b (pos + d) = (diffStart a b pos).map (· + d) := by
+    intro a b pos d
+    fun_induction diffStart a b pos with
+    | case1 => simp [diffStart]
+    | case2 => simp [diffStart]
+    | case3 => simp [diffStart]
+    | case4 x xs y ys pos hm =>
+      unfold diffStart; simp [hm]
+    | case5 xs ys pos s m s' m' hs =>
+      rename_i hm
+      unfold diffStart
+      simp only [hm, hs, ne_eq, not_false_eq_true, if_true, Option.map_some, Bool.false_eq_true,
+        if_false, Option.some.injEq]
+      omega
+    | case6 xs ys pos s m s' m' hs hm ih =>
+      conv => lhs; unfold diffStart
+      simp only [hm, if_false, hs]
+      rw [show pos + d + s.length = pos + s.length + d by omega]
+      exact ih
+    | case7 xs ys pos t a m k t' a' m' k' r hr hm ih =>
+      conv => lhs; unfold diffStart
+      have : (if fsize k ≠ 0 ∨ fsize k' ≠ 0 then diffStart k k' (pos + d + 1) else none) = some (r + d) := by
+        by_cases hz : fsize k ≠ 0 ∨ fsize k' ≠ 0
+        · simp only [hz, dite_true] at hr
+          rw [if_pos hz, show pos + d + 1 = pos + 1 + d by omega, ih, hr]; rfl
+        · simp [hz] at hr
+      simp [hm, this]
+    | case8 xs ys pos t a m k t' a' m' k' hr hm ih ih2 =>
+      conv => lhs; unfold diffStart
+      have : (if fsize k ≠ 0 ∨ fsize k' ≠ 0 then diffStart k k' (pos + d + 1) else none) = none := by
+        by_cases hz : fsize k ≠ 0 ∨ fsize k' ≠ 0
+        · simp only [hz, dite_true] at hr
+          rw [if_pos hz, show pos + d + 1 = pos + 1 + d by omega, ih, hr]; rfl
+        · rw [if_neg hz]
+      simp only [hm, this]
+      rw [show pos + d + (Node.elem t a m k).size = pos + (Node.elem t a m k).size + d by omega]
+      exact ih2
+    | case9 x xs y ys pos hm h1 h2 ih =>
+      obtain ⟨hxy, t, a, m, hx⟩ := diffStart_case9 x y (by simpa using hm) h1 h2
+      subst hxy; subst hx
+      conv => lhs; unfold diffStart
+      simp only [Node.sameMarkup_self, Bool.not_true, Bool.false_eq_true, if_false]
+      rw [show pos + d + (Node.leaf t a m).size = pos + (Node.leaf t a m).size + d by omega]
+      exact ih
+  have := key a b 0 pos
+  rwa [Nat.zero_add] at this
+
+/-- **the two arguments may be swapped**: `find_diff_start` is symmetric, `find_diff_end` returns the
+    swapped pair (no normal-form guard needed) -/
+theorem diff_symmetric (a b : List Node) (p pa pb : Nat) :
+    diffStart a b p = diffStart b a p ∧
+    diffEnd a b pa pb = (diffEnd b a pb pa).map Prod.swap :=
+  ⟨diffStart_comm a b p, diffEnd_comm a b pa pb⟩
 
 end PM.C20
